@@ -31,7 +31,7 @@ PROPERTY = "C13"
 HASHSEEDS = [11, 12, 13]
 
 SIZED_INT = [Int8(), Int16(), Int32(), Int64(), UInt8(), UInt16(), UInt32(), UInt64()]
-BASE = SIZED_INT + [Int(), Float32(), Float64(), Float(), Decimal(), Decimal(10, 2), String(), String(5), Enum("a", "b"),
+BASE = SIZED_INT + [Int(), Float32(), Float64(), Float(), Decimal(), Decimal(10, 2), Decimal(12, 4), String(), String(5), String(10), Enum("a", "b"),
                     Bool(), Date(), Datetime(), Time(), Duration(), NullType(), List(Int64()), List(String())]
 UNIVERSE = BASE + [ptypes.Const(t) for t in BASE]
 SUB20 = [t for t in UNIVERSE if repr(ptypes.without_const(t)) in
@@ -211,7 +211,7 @@ def check_op(opname, op, tier, stats):
         elif (real == "DataTypeError") != (out == "DataTypeError") and not out.startswith("EXC:") and not real.startswith("EXC:"):
             vs.append(viol("colfn-agrees-with-return_type", opname, sig, f"{out}!={real}", {}))
     # (2) uniformity
-    generic = {"Int": [tname(t) for t in SIZED_INT], "Float": ["Float32", "Float64"], "Decimal": ["Decimal(10, 2)"]}
+    generic = {"Int": [tname(t) for t in SIZED_INT], "Float": ["Float32", "Float64"], "Decimal": ["Decimal(10, 2)", "Decimal(12, 4)"]}
     for sig, out in tab.items():
         if not out.startswith("T:"):
             continue
